@@ -1543,6 +1543,13 @@ where
             }
         }
 
+        // only gossipsub peers can be mesh members; a peer that negotiated floodsub has no
+        // business grafting (it is flooded to anyway)
+        if !connected_peer.kind.is_gossipsub() {
+            tracing::warn!(peer=%peer_id, "GRAFT: ignoring request from non-gossipsub peer");
+            return;
+        }
+
         // we don't GRAFT to/from explicit peers; complain loudly if this happens
         if self.explicit_peers.contains(peer_id) {
             tracing::warn!(peer=%peer_id, "GRAFT: ignoring request from direct peer");
